@@ -1,12 +1,29 @@
 """C05 - datasets survive serialization and disk round trips unchanged."""
 ID = "C05"
-LEVEL = "exploration"
-LEVEL_TEXT = 'PROVED (unbounded, z3) for the minimal format: _serialize_minimal writes, for every dataset length, grid size and mix of solution lengths, exactly the connection lists, the solution lengths and the solutions (padded), with shape agreement and int8/int32 range obligations (loop invariant); _load_minimal rebuilds mazes with exactly those arrays and the solution ends as start/end; the round-trip lemma (same count, order, connection structure, solution, start, end) follows from the two contracts. The concatenated-solutions format, the full format, the threshold selection and real files are decided by the bounded stand-in. Bounded: round trips through all three formats, all threshold settings and real .zanj files for enumerated datasets (all generators, mixed solution lengths incl. length-1/2, with/without metadata), and collections member by member; arrays compared with np.array_equal.'
-LEVEL_NOTE = 'Trusted: muutils/zanj internals. Configuration equality is judged on the configuration the dataset has after serialize() returned (minimal formats collect metadata in place: documented side effect).'
-TECHNIQUE = "contracts on the minimal-format codec discharged by z3 (pyvc) + bounded stand-in of the contract-based verifier: run-time checking of the real code against an independent executable statement over an enumerated scope (the proved functions are listed in evidence)"
+LEVEL = "proof"
+LEVEL_TEXT = (
+    "PROVED (unbounded, z3; every dataset length, grid size and mix of solution lengths): BOTH minimal storage formats and the format selection. _serialize_minimal writes exactly the "
+    "connection lists, the solution lengths and the padded solutions (shape agreement, int8/int32 range obligations, loop invariant); _load_minimal rebuilds mazes with exactly those arrays "
+    "and the solution ends as start/end; _serialize_minimal_soln_cat writes the k-th solution at offset (sum of the earlier lengths) of the concatenation (running-offset invariant over prefix sums); "
+    "_load_minimal_soln_cat cuts it back at the cumulative lengths (np.cumsum / np.split library contracts, cut positions ordered: an obligation); the two round-trip LEMMAS "
+    "(same count, order, connection structure, solution, start, end) follow from the contracts alone; serialize() selects the minimal format exactly when a threshold is set and "
+    "0 < len >= threshold, else the full one, for EVERY value of the module-global threshold, and calls _serialize_minimal only within its precondition; load() dispatches each minimal format to "
+    "its own loader. NOT proved (muutils/zanj reflection and real files are outside the subset): the full format, configuration equality, collected-metadata counts, files, collections - "
+    "decided by the bounded stand-in: round trips through all three formats, all threshold settings and real .zanj files for enumerated datasets (all generators, mixed solution lengths incl. "
+    "length-1/2, with/without metadata, EMPTY datasets), and collections member by member (own and copied member configs, empty members); arrays compared with np.array_equal."
+)
+LEVEL_NOTE = ("Trusted: pyvc encoding; muutils/zanj internals (json_serialize / load_item_recursive are the identity on in-memory arrays; MazeDatasetConfig.load(serialize(cfg)) is cfg); the dataclass-generated "
+              "SolvedMaze.__init__ (assumed contract, validated by the bounded stand-ins); np.cumsum / np.split library contracts; lemmas psum_monotone and psum_congruence (simple inductions). "
+              "Configuration equality is judged on the configuration the dataset has after serialize() returned (minimal formats collect metadata in place: documented side effect).")
+TECHNIQUE = "contract-based deductive verification of both minimal codecs, their round-trip lemmas, format selection and dispatch (loop invariants, library contracts, z3) + bounded run-time checking for the full format, files, metadata, configs and collections"
 CONTRACT_MODULES = ["contracts.serialization"]
-PROVE = [("maze_dataset/dataset/maze_dataset.py", "MazeDataset._serialize_minimal"), ("maze_dataset/dataset/maze_dataset.py", "MazeDataset._load_minimal"), ("/verif/contracts/lemmas_src.py", "minimal_roundtrip")]
-ASSUMPTIONS = ["assumed contracts (dataclass/torch machinery, not verified against a body): SolvedMaze.__init__, MazeDataset.__init__; MazeDatasetConfig.load(serialize(cfg)) is cfg; json_serialize / load_item_recursive are the identity on in-memory arrays; the branch of _serialize_minimal that first collects generation metadata through the filter machinery is outside the verified subset (precondition: metadata already collected or absent)"]
+MD = "maze_dataset/dataset/maze_dataset.py"
+L = "/verif/contracts/lemmas_src.py"
+PROVE = [(MD, "MazeDataset._serialize_minimal"), (MD, "MazeDataset._load_minimal"), (L, "minimal_roundtrip"),
+         (MD, "MazeDataset._serialize_minimal_soln_cat"), (MD, "MazeDataset._load_minimal_soln_cat"), (L, "soln_cat_roundtrip"),
+         (MD, "MazeDataset.serialize"), (MD, "MazeDataset.load")]
+ASSUMPTIONS = ["assumed contracts (dataclass/torch/muutils machinery, not verified against a body): SolvedMaze.__init__, MazeDataset.__init__, MazeDataset._serialize_full; the branch of the minimal "
+               "serializers that first collects generation metadata through the filter machinery is outside the verified subset (precondition: metadata already collected or absent)"]
 EXPLANATION = "see DESIGN.md C05"
 
 
